@@ -477,7 +477,7 @@ func corpus() []scen {
 func TestC12(t *testing.T) {
 	rng := emit.NewRand(emit.Seed())
 	out := emit.NewWriter("Model.HeightSub Oracle.C12", "case12", "chk12")
-	out.PerShard(300)
+	out.PerShard(500)
 	thorough := emit.Thorough()
 	out.Rule = "scenario = readers (requested heights) + macro operations {start reader held at its first index read / not held, release, Append batch with the flush " +
 		"free / held after Notify in advanceHead's index read, release flush, cancel reader}; each macro op is followed by synctest.Wait and expanded into the model's " +
